@@ -84,47 +84,90 @@ theorem release_with (P : Pool) (a : Nat) (c : List Tx) (l : Int) :
   · split <;> rfl
   · rfl
 
-theorem pinv_removeTx {P : Pool} (h : PInv P) (a id : Nat) (hacc : ∀ t ∈ P.cache, t.id = id → t.acc = a) :
-    PInv (P.removeTx a id).1 := by
+/-- Removal under the list key of the pooled transaction with that hash keeps the invariant. -/
+theorem pinv_removeAt {P : Pool} (h : PInv P) (key id : Nat) (hc : cacheHas id P.cache = true)
+    (hacc : ∀ t ∈ P.cache, t.id = id → t.acc = key) : PInv (P.removeAt key id) := by
+  unfold Pool.removeAt
+  obtain ⟨t, ht, hid⟩ := cacheHas_iff.1 hc
+  have hta := hacc t ht hid
+  obtain ⟨k, N, hkN, htN⟩ := mem_allTxs.1 (h.cache.subset ht)
+  have hk : k = key := by rw [← (h.lists k N hkN).2 t htN]; exact hta
+  subst hk
+  have hl := lookup_of_mem h.keys hkN
+  obtain ⟨_, _, _, _, _, _, _, _, _, _, hsome⟩ := pinv_acquire h k
+  obtain ⟨e2, e1⟩ := hsome N hl
+  simp only [e1, e2]
+  rw [release_with]
+  simp only [(release_fields _ _).1, (release_fields _ _).2.1]
+  apply pinv_release
+  have hN := (h.lists k N hkN).1
+  obtain ⟨hM, _, hm⟩ := remove_spec hN id
+  cases hr : (N.remove id).2.2 with
+  | none =>
+    rw [hr] at hm
+    exact absurd hid (hm.2.2 t htN)
+  | some x =>
+    rw [hr] at hm
+    obtain ⟨hx, hperm, hsub, hdiff⟩ := hm
+    refine pinv_replace h hl hM (fun t ht => (h.lists k N hkN).2 t (hsub.subset ht)) ?_ (cacheDel_ids_nodup h.ids) ?_ ?_
+    · intro X Y hcp
+      have h1 : P.cache.Perm (x :: (X ++ (N.remove id).1.list ++ Y)) := by
+        refine hcp.trans ?_
+        have : (X ++ N.list ++ Y).Perm (X ++ (x :: (N.remove id).1.list) ++ Y) :=
+          List.Perm.append_right Y (List.Perm.append_left X hperm)
+        refine this.trans ?_
+        simp only [List.append_assoc, List.cons_append]
+        exact List.perm_middle
+      have := cacheDel_perm h1 h.ids
+      rwa [hx] at this
+    · have := hperm.length_eq
+      simp only [List.length_cons] at this
+      omega
+    · rw [hdiff]; unfold orph; omega
+
+/-- In an index with distinct hashes, `find?` by hash returns the one entry with that hash. -/
+theorem find_id_unique {c : List Tx} (hn : (c.map (·.id)).Nodup) {id : Nat} {t t' : Tx}
+    (hf : c.find? (fun t => t.id == id) = some t) (ht' : t' ∈ c) (hid' : t'.id = id) : t' = t := by
+  have h1 := List.find?_some hf
+  have h2 := List.mem_of_find?_eq_some hf
+  simp only [beq_iff_eq] at h1
+  obtain ⟨i, hi, rfl⟩ := List.mem_iff_getElem.1 ht'
+  obtain ⟨j, hj, rfl⟩ := List.mem_iff_getElem.1 h2
+  have hpw := List.pairwise_iff_getElem.1 hn
+  have hij : i = j := by
+    apply Classical.byContradiction
+    intro hne
+    by_cases hlt : i < j
+    · have := hpw i j (by simpa using hi) (by simpa using hj) hlt
+      simp only [List.getElem_map] at this
+      exact this (by rw [hid', h1])
+    · have := hpw j i (by simpa using hj) (by simpa using hi) (by omega)
+      simp only [List.getElem_map] at this
+      exact this (by rw [hid', h1])
+  subst hij
+  rfl
+
+/-- `removeTx` keeps the invariant. The only hypothesis left is hash identity for a pooled transaction that was
+*not* filed under a verified address: the transaction handed in (same hash) carries the same sender field. -/
+theorem pinv_removeTx {P : Pool} (h : PInv P) (a id : Nat)
+    (hacc : ∀ t ∈ P.cache, t.id = id → t.named = false → t.acc = a) : PInv (P.removeTx a id).1 := by
   unfold Pool.removeTx
   by_cases hc : cacheHas id P.cache = true
   · simp only [hc, Bool.not_true, Bool.false_eq_true, ↓reduceIte]
-    obtain ⟨t, ht, hid⟩ := cacheHas_iff.1 hc
-    have hta := hacc t ht hid
-    obtain ⟨k, N, hkN, htN⟩ := mem_allTxs.1 (h.cache.subset ht)
-    have hk : k = a := by rw [← (h.lists k N hkN).2 t htN]; exact hta
-    subst hk
-    have hl := lookup_of_mem h.keys hkN
-    obtain ⟨_, _, _, _, _, _, _, _, _, _, hsome⟩ := pinv_acquire h k
-    obtain ⟨e2, e1⟩ := hsome N hl
-    rw [e1, e2]
-    rw [release_with]
-    simp only [(release_fields _ _).1, (release_fields _ _).2.1]
-    apply pinv_release
-    have hN := (h.lists k N hkN).1
-    obtain ⟨hM, _, hm⟩ := remove_spec hN id
-    cases hr : (N.remove id).2.2 with
+    apply pinv_removeAt h _ _ hc
+    intro t ht hid
+    unfold Pool.removeKey
+    cases hf : P.cache.find? (fun t => t.id == id) with
     | none =>
-      rw [hr] at hm
-      exact absurd hid (hm.2.2 t htN)
-    | some x =>
-      rw [hr] at hm
-      obtain ⟨hx, hperm, hsub, hdiff⟩ := hm
-      refine pinv_replace h hl hM (fun t ht => (h.lists k N hkN).2 t (hsub.subset ht)) ?_ (cacheDel_ids_nodup h.ids) ?_ ?_
-      · intro X Y hcp
-        have h1 : P.cache.Perm (x :: (X ++ (N.remove id).1.list ++ Y)) := by
-          refine hcp.trans ?_
-          have : (X ++ N.list ++ Y).Perm (X ++ (x :: (N.remove id).1.list) ++ Y) :=
-            List.Perm.append_right Y (List.Perm.append_left X hperm)
-          refine this.trans ?_
-          simp only [List.append_assoc, List.cons_append]
-          exact List.perm_middle
-        have := cacheDel_perm h1 h.ids
-        rwa [hx] at this
-      · have := hperm.length_eq
-        simp only [List.length_cons] at this
-        omega
-      · rw [hdiff]; unfold orph; omega
+      have := List.find?_eq_none.1 hf t ht
+      simp [hid] at this
+    | some t0 =>
+      have := find_id_unique h.ids hf ht hid
+      subst this
+      simp only
+      split
+      · rfl
+      · next hn => exact hacc t ht hid (by simpa using hn)
   · have hc' : cacheHas id P.cache = false := by simpa using hc
     simp only [hc', Bool.not_false, ↓reduceIte]
     exact h
